@@ -3,7 +3,7 @@
    expressions of the case, and a list of searches; run Model.Search (and, for the evaluated
    check of the specification, Spec.SearchSpec) on them. *)
 From Coq Require Import List ZArith NArith Bool Arith.
-From BS Require Import Base.Sexp Base.Types Model.Heap Model.Iter Model.Attrs Model.Search Spec.SearchSpec.
+From BS Require Import Base.Sexp Base.Types Model.Heap Model.Iter Model.Attrs Model.Search Spec.SearchSpec Spec.CssSpec.
 Import ListNotations.
 Open Scope Z_scope.
 
@@ -183,9 +183,40 @@ Definition cmd_c10_search2 (args : list sexp) : sexp :=
   | _ => A (-1)
   end.
 
+(* ---- CSS clause: selectors (Spec/CssSpec.v) ---- *)
+Definition g_asimple (s : sexp) : asimple :=
+  match gL s with
+  | [A 0; c] => CClass (gstr c)
+  | [A 1; i] => CId (gstr i)
+  | [A 2; k] => CAttr (gstr k)
+  | [A 3; k; v] => CAttrEq (gstr k) (gstr v)
+  | _ => CAttr []
+  end.
+Definition g_compound (s : sexp) : compound := mkcomp (gopt gstr (gnth s 0)) (glist g_asimple (gnth s 1)).
+Definition g_comb (s : sexp) : comb := match gZ s with 0 => Desc | _ => Child end.
+Definition g_complex (s : sexp) : complex :=
+  mkcx (g_compound (gnth s 0)) (glist (fun cc => (g_comb (gnth cc 0), g_compound (gnth cc 1))) (gnth s 1)).
+Definition g_selector (s : sexp) : selector := glist g_complex s.
+
+(* (10002 cells ext ((start selector) ...)) -> ((select_spec select_fa selector_ok) ...) : the specification of
+   select(), its find_all composition (they are proved equal on the domain), and the domain flag *)
+Definition cmd_c10_css (args : list sexp) : sexp :=
+  match args with
+  | cells :: ext :: items :: _ =>
+      let cs := glist g_cell cells in
+      let h := heap_of cs in let xm := xmap_of (glist g_tagx ext) in let fuel := S (length cs) in
+      slist (fun it =>
+               let e := gnat (gnth it 0) in let sel := g_selector (gnth it 1) in
+               L [slist snat (select_spec h xm fuel sel e);
+                  slist snat (select_fa (fun _ _ => false) (fun _ _ => false) h xm fuel sel e);
+                  sbool (selector_ok sel)]) (gL items)
+  | _ => A (-1)
+  end.
+
 Definition disp_c10 (sub : Z) (args : list sexp) : sexp :=
   match sub with
   | 0 => cmd_c10_search args
   | 1 => cmd_c10_search2 args
+  | 2 => cmd_c10_css args
   | _ => A (-2)
   end.
